@@ -1,4 +1,5 @@
 import Ezc3dVerif.Proofs.LoadWrite
+import Ezc3dVerif.Proofs.SpecRecords
 /-
   C03 (continued) — the written file, byte for byte, and what a reader that follows its pointers finds.
 
@@ -42,5 +43,57 @@ theorem param_record_bytes (p : Param) (h : RecOK p) (gid : Int) :
   rw [Param.write_plain p h gid]
   unfold Param.recBytes Param.recTail
   simp
+
+/-- THE INDEPENDENT DECODER ON THE WRITTEN SECTION: `Spec.decodeRecords` (Spec/Format.lean: positional access only, every
+    record's own offset checked against where the record really ends) started after the prologue of a section
+    the writer produced walks every record, finds exactly the groups (id, upper-case name, lock, description) and the
+    parameters (group id, upper-case name, lock, dimensions as stored, values of the stored type, description) that
+    memory holds — POINT:DATA_START holding the block after the section — and stops at the terminator -/
+theorem spec_records (ph : PHeader) (gs : List Group) (ps pre post : Bytes)
+    (hok : ∀ g ∈ gs, g.name ≠ [] → GroupRecsOK g) (hd : (gs.map fun g => g.name).Pairwise (· ≠ ·)) (hlen : gs.length ≤ 127)
+    (h : writeParamSection ph gs 512 = .ok ps) :
+    ∃ (v : Int) (k : Nat), 0 ≤ v ∧ v < 256 ∧ v = ((ps.length / 512 + 2 : Nat) : Int) % 256 ∧ k ≤ ps.length ∧
+      Spec.decodeRecords (pre ++ (ps ++ post)) ((pre ++ (ps ++ post)).length + 1) (pre.length + 4) {}
+        = some { groups := specGroupsOf (gs.map (setDSg v)) 0, params := specParamsOf (gs.map (setDSg v)) 0,
+                 terminated := true, endPos := pre.length + k } := by
+  obtain ⟨v, npad, hv1, hv2, hnp, hpsb, _, _, hveq⟩ := writeParamSection_bytes ph gs ps hok hd h
+  have hgs' : ∀ g ∈ gs.map (setDSg v), g.name ≠ [] → GroupRecsOK g := by
+    intro g hg _
+    simp only [List.mem_map] at hg
+    obtain ⟨g0, hg0, rfl⟩ := hg
+    by_cases hn : g0.name = []
+    · have : g0.name ≠ POINT := by rw [hn]; decide
+      rw [setDSg_not v g0 this] at *
+      rename_i hne; exact absurd hn hne
+    · exact setDSg_ok v hv1 hv2 g0 (hok g0 hg0 hn)
+  generalize hgb : groupsBytes (gs.map (setDSg v)) 0 = gb at hpsb
+  refine ⟨v, 4 + gb.length + 1, hv1, hv2, hveq, ?_, ?_⟩
+  · rw [hpsb]; simp only [List.length_append, List.length_cons, List.length_nil, List.length_replicate]; omega
+  · have hpad : List.replicate npad (0 : UInt8) = 0 :: List.replicate (npad - 1) 0 := by
+      cases npad with
+      | zero => omega
+      | succ n => simp [List.replicate_succ]
+    have hb : pre ++ (ps ++ post) = (pre ++ [low8N ph.start, 0x50, low8 ((ps.length / 512 : Nat) : Int), 84]) ++ (gb ++ (0 :: (List.replicate (npad - 1) 0 ++ post))) := by
+      conv => lhs; rw [hpsb, hpad]
+      simp
+    generalize hbb : pre ++ (ps ++ post) = b at hb ⊢
+    have hpl : pre.length + 4 = (pre ++ [low8N ph.start, 0x50, low8 ((ps.length / 512 : Nat) : Int), 84]).length := by simp
+    have hcount := recCount_le (gs.map (setDSg v)) 0
+    rw [hgb] at hcount
+    have hblen : gb.length + 1 ≤ b.length := by rw [hb]; simp only [List.length_append, List.length_cons]; omega
+    have h1 : recCount (gs.map (setDSg v)) + 1 ≤ b.length := by omega
+    obtain ⟨f0, hf0⟩ := Nat.exists_eq_add_of_le h1
+    have hfuel : b.length + 1 = ((f0 + 1) + 1) + recCount (gs.map (setDSg v)) := by omega
+    rw [hfuel, hpl]
+    rw [decodeRecords_groupList (gs.map (setDSg v)) _ 0 b _ (0 :: (List.replicate (npad - 1) 0 ++ post)) {} (by simpa using hlen) hgs' (by rw [hgb]; exact hb)]
+    rw [hgb]
+    have hb2 : b = ((pre ++ [low8N ph.start, 0x50, low8 ((ps.length / 512 : Nat) : Int), 84]) ++ gb) ++ (0 :: (List.replicate (npad - 1) 0 ++ post)) := by
+      rw [hb]; simp
+    have hl2 : (pre ++ [low8N ph.start, 0x50, low8 ((ps.length / 512 : Nat) : Int), 84]).length + gb.length
+        = ((pre ++ [low8N ph.start, 0x50, low8 ((ps.length / 512 : Nat) : Int), 84]) ++ gb).length := by simp; omega
+    rw [hl2, decodeRecords_end _ b _ _ _ hb2]
+    simp only [List.length_append, List.length_cons, List.length_nil, List.nil_append]
+    congr 2
+    omega
 
 end Ezc3d.C03
